@@ -37,6 +37,12 @@ def run(tier: str) -> int:
     for it in r5i:
         it["qs"] = rng.sample(it["qs"], 40 if tier == "quick" else 120)
     items += r5i
+    # every identifiable 4-node query whose final ID call takes another recursive step inside a sub-problem that line 7
+    # created (ID.tla IDSteps / DeepAfter7; 5th field of the generated query)
+    for it in ic.with_gids(g4["items"], "A4d-"):
+        deep = [q for q in it["qs"] if q[3] and q[4]]
+        if deep:
+            items.append(dict(it, qs=deep))
     groups = ic.run_y0(wd, items, 2, True, "c03")
     vs, st, by_id = ic.judge(wd, groups, seeds=(1, 2) if tier == "quick" else (1, 2, 3))
     ic.report(out, vs, by_id, ic.index(items), skip_clauses={"vocabulary"})
